@@ -93,6 +93,8 @@ static std::string step(const std::vector<std::string> &t) {
         return "ok";
     }
     if (op == "mkdir") { return ::mkdir(pathOf(t[2]).c_str(), 0755) == 0 ? "ok" : "!harness-cannot-create"; }
+    // symbolic link t[2] -> t[3] (relative target in the same directory; the target need not exist)
+    if (op == "mklink") { return ::symlink(t[3].c_str(), pathOf(t[2]).c_str()) == 0 ? "ok" : "!harness-cannot-create"; }
     if (op == "fsize") {
         std::error_code ec;
         auto n = std::filesystem::file_size(pathOf(t[2]), ec);
